@@ -477,7 +477,8 @@ fn chk_history(g: &mut Gen) -> Result<(), String> {
                 let sel = match g.below(4) { 0 => last_sel, 1 => 0xFF, 2 => g.below(vids.len() + 1) as u8, _ => g.u8() };
                 let src = g.u8();
                 let p = packet_bytes(addr, src, 0, &[0x80 | (g.u8() & 0x1f), 0x06, sel]);
-                let mut rb = [0u8; 64];
+                let fill = if g.below(3) == 0 { 0u8 } else { g.u8() };   // C11: the bytes beyond the reported length stay as they were
+                let mut rb = [fill; 64];
                 let r = quiet(|| c.process_packet(&p, &mut rb).map(|x| x.1)).map_err(|m| format!("history {:?}: process_packet({}) panicked: {}", trace, hex(&p), m))?;
                 trace.push(format!("process({})", hex(&p)));
                 let n = match r { Ok(Some(n)) => n, o => return Err(format!("history {:?}: Get Vendor Defined Message Support not answered: {:?}", trace, o.map_err(|e| err_class(&e)))) };
@@ -492,18 +493,22 @@ fn chk_history(g: &mut Gen) -> Result<(), String> {
                     return Err(format!("history {:?}: out-of-range selector {} answered with {}", trace, sel, hex(&rb[..n])));
                 }
                 if rb[..n] != packet_bytes(src, addr, 0, &rb[9..n - 1])[..] { return Err(format!("history {:?}: vendor support answer {} is not a well-formed response back to {:#x}", trace, hex(&rb[..n]), src)); }
+                if rb[n..].iter().any(|b| *b != fill) { return Err(format!("history {:?}: vendor support answer of {} bytes, but bytes beyond the reported length were written: {}", trace, n, hex(&rb[n..]))); }
             }
             3 | 4 => {
                 let op = if g.below(6) == 0 { g.u8() } else { g.below(4) as u8 }; let eid = 1 + g.u8() % 0xFE; let good = g.below(4) > 0;
                 let src = g.u8();
                 let mut p = packet_bytes(addr, src, 0, &[0x80, 0x01, op, eid]);
                 if !good { let l = p.len(); p[l - 1] ^= 0x5A; }
-                let mut rb = [0u8; 64];
+                let fill = if g.below(3) == 0 { 0u8 } else { g.u8() };
+                let mut rb = [fill; 64];
                 let r = quiet(|| c.process_packet(&p, &mut rb).map(|x| x.1)).map_err(|m| format!("process_packet({}) panicked: {}", hex(&p), m))?;
                 if good && (op == 0 || op == 1) { model_eid = eid; model_eid_s = eid; }
                 trace.push(format!("process({})", hex(&p)));
+                if !good && rb.iter().any(|b| *b != fill) { return Err(format!("history {:?}: rejected Set Endpoint ID but the response buffer was written", trace)); }
                 if good {
                     match r { Ok(Some(16)) => {}, o => return Err(format!("history {:?}: Set Endpoint ID not answered: {:?}", trace, o.map_err(|e| err_class(&e)))) }
+                    if rb[16..].iter().any(|b| *b != fill) { return Err(format!("history {:?}: Set Endpoint ID answer of 16 bytes, but bytes beyond the reported length were written", trace)); }
                     // C12: the answer travels back to the requester, from the responder's own address, and is well-formed
                     if rb[..16] != packet_bytes(src, addr, 0, &rb[9..15])[..] || rb[9] & 0xE0 != 0 || rb[10] != 0x01 {
                         return Err(format!("history {:?}: Set Endpoint ID (operation {}) answered with {} which is not a well-formed response back to requester {:#x}", trace, op, hex(&rb[..16]), src));
